@@ -90,6 +90,11 @@ impl FsState {
             Eff::Unlink { name, .. } => {
                 self.dir.remove(name);
             }
+            Eff::Rename { from, to } => {
+                if let Some(node) = self.dir.remove(from) {
+                    self.dir.insert(to.clone(), node);
+                }
+            }
             _ => {}
         }
     }
@@ -144,6 +149,7 @@ pub enum Class {
     SyncData,
     SyncDir,
     Unlink,
+    Rename,
 }
 
 #[derive(Clone, Debug)]
@@ -160,6 +166,7 @@ pub enum Eff {
     SyncData { name: String, ino: usize },
     SyncDir,
     Unlink { name: String, ino: Option<usize> },
+    Rename { from: String, to: String },
     /// A call that returned an error (natural or injected); changes nothing.
     Fail { class: Class, target: String, errno: i32, injected: bool },
 }
@@ -179,6 +186,7 @@ impl Eff {
             Eff::SyncData { .. } => Class::SyncData,
             Eff::SyncDir => Class::SyncDir,
             Eff::Unlink { .. } => Class::Unlink,
+            Eff::Rename { .. } => Class::Rename,
             Eff::Fail { class, .. } => *class,
         }
     }
@@ -186,7 +194,7 @@ impl Eff {
     pub fn is_mutating(&self) -> bool {
         matches!(
             self,
-            Eff::Create { .. } | Eff::SetLen { .. } | Eff::Write { .. } | Eff::Unlink { .. }
+            Eff::Create { .. } | Eff::SetLen { .. } | Eff::Write { .. } | Eff::Unlink { .. } | Eff::Rename { .. }
         )
     }
 
@@ -201,6 +209,7 @@ impl Eff {
             | Eff::Write { name, .. }
             | Eff::SyncData { name, .. }
             | Eff::Unlink { name, .. } => Some(name),
+            Eff::Rename { from, .. } => Some(from),
             Eff::Fail { target, .. } => Some(target),
             _ => None,
         }
@@ -220,6 +229,7 @@ impl Eff {
             Eff::SyncData { name, .. } => format!("fsync({name})"),
             Eff::SyncDir => "fsync(dir)".into(),
             Eff::Unlink { name, .. } => format!("unlink({name})"),
+            Eff::Rename { from, to } => format!("rename({from},{to})"),
             Eff::Fail { class, target, errno, injected } => {
                 format!("FAIL {class:?}({target}) errno={errno} injected={injected}")
             }
@@ -269,6 +279,7 @@ struct Handle {
     name: String,
     writable: bool,
     readable: bool,
+    append: bool,
 }
 
 pub struct SimFs {
@@ -470,7 +481,7 @@ impl VerifFs for SimFs {
             self.push(Eff::OpenDir);
             let h = self.next_handle;
             self.next_handle += 1;
-            self.handles.insert(h, Handle { ino: None, pos: 0, name: String::new(), writable: false, readable: true });
+            self.handles.insert(h, Handle { ino: None, pos: 0, name: String::new(), writable: false, readable: true, append: false });
             return Ok(h);
         }
         let name = match Self::rel_name(path) {
@@ -491,10 +502,16 @@ impl VerifFs for SimFs {
             self.push(eff);
             let h = self.next_handle;
             self.next_handle += 1;
-            self.handles.insert(h, Handle { ino: Some(ino), pos: 0, name, writable: flags.write, readable: flags.read });
+            self.handles.insert(h, Handle { ino: Some(ino), pos: 0, name, writable: flags.write || flags.append, readable: flags.read, append: flags.append });
             return Ok(h);
         }
         self.enter(Class::Open, &name)?;
+        if flags.create && !self.st.dir.contains_key(&name) {
+            let ino = self.st.inodes.len();
+            let eff = Eff::Create { name: name.clone(), ino };
+            self.st.apply(&eff);
+            self.push(eff);
+        }
         let ino = match self.st.dir.get(&name) {
             Some(DNode::File(ino)) => *ino,
             Some(DNode::Dir) => {
@@ -505,9 +522,14 @@ impl VerifFs for SimFs {
             Some(DNode::Symlink) | None => return Err(self.natural_fail(Class::Open, &name, ENOENT)),
         };
         self.push(Eff::Open { name: name.clone(), ino });
+        if flags.truncate && (flags.write || flags.append) && !self.st.inodes[ino].is_empty() {
+            let eff = Eff::SetLen { name: name.clone(), ino, len: 0 };
+            self.st.apply(&eff);
+            self.push(eff);
+        }
         let h = self.next_handle;
         self.next_handle += 1;
-        self.handles.insert(h, Handle { ino: Some(ino), pos: 0, name, writable: flags.write, readable: flags.read });
+        self.handles.insert(h, Handle { ino: Some(ino), pos: 0, name, writable: flags.write || flags.append, readable: flags.read, append: flags.append });
         Ok(h)
     }
 
@@ -605,10 +627,13 @@ impl VerifFs for SimFs {
     }
 
     fn write(&mut self, handle: u64, buf: &[u8]) -> io::Result<usize> {
-        let (ino, name, pos, writable) = {
+        let (ino, name, mut pos, writable) = {
             let h = self.handles.get(&handle).expect("write on closed handle");
             (h.ino, h.name.clone(), h.pos, h.writable)
         };
+        if let (Some(ino), true) = (ino, self.handles[&handle].append) {
+            pos = self.st.inodes[ino].len() as u64;
+        }
         self.enter(Class::Write, &name)?;
         let Some(ino) = ino else {
             return Err(self.natural_fail(Class::Write, &name, EBADF));
@@ -671,6 +696,30 @@ impl VerifFs for SimFs {
         self.push(eff);
         Ok(())
     }
+
+    fn file_len(&mut self, handle: u64) -> io::Result<u64> {
+        let (ino, name) = {
+            let h = self.handles.get(&handle).expect("metadata on closed handle");
+            (h.ino, h.name.clone())
+        };
+        self.enter(Class::Stat, &name)?;
+        let len = ino.map(|i| self.st.inodes[i].len() as u64).unwrap_or(4096);
+        self.push(Eff::Stat { name });
+        Ok(len)
+    }
+
+    fn rename(&mut self, from: &Path, to: &Path) -> io::Result<()> {
+        let from = Self::rel_name(from).unwrap_or_else(|| "?".to_string());
+        let to = Self::rel_name(to).unwrap_or_else(|| "?".to_string());
+        self.enter(Class::Rename, &from)?;
+        if !self.st.dir.contains_key(&from) {
+            return Err(self.natural_fail(Class::Rename, &from, ENOENT));
+        }
+        let eff = Eff::Rename { from, to };
+        self.st.apply(&eff);
+        self.push(eff);
+        Ok(())
+    }
 }
 
 /// Shared handle installed as the thread's backend.
@@ -706,5 +755,11 @@ impl VerifFs for SharedFs {
     }
     fn remove_file(&mut self, path: &Path) -> io::Result<()> {
         self.0.borrow_mut().remove_file(path)
+    }
+    fn file_len(&mut self, handle: u64) -> io::Result<u64> {
+        self.0.borrow_mut().file_len(handle)
+    }
+    fn rename(&mut self, from: &Path, to: &Path) -> io::Result<()> {
+        self.0.borrow_mut().rename(from, to)
     }
 }
